@@ -34,7 +34,8 @@ def run(ctx):
                          bound='every leaf of the tree', realised='leaf index'))
         C.append(xh.Cond(N, 'nav_node', timeout=200, path_timeout=30, name='nav.node-laws/tree%d' % t, extra_pre=['t == %d' % t],
                          bound='every node of the tree', realised='node index'))
-    C.append(xh.Cond(N, 'synthetic', timeout=300 if q else 1500, path_timeout=30,
+    C.append(xh.Cond(N, 'synthetic', timeout=300 if q else 2400, path_timeout=30,
+                     extra_pre=['n1 == 1', 'n3 == 0', 'n4 == 1', 'n5 == 2'] if q else [],
                      bound='6 leaves in a fixed 3-level shape; start line/column, gaps (unbounded), widths 0..2, two optional '
                            'line breaks; every integer query position', symbolic='14 ints, 3 flags'))
     C.append(xh.Cond(N, 'lookup', timeout=120, path_timeout=30, twin='bisect-strict', extra_pre=['t == 3']))
